@@ -45,6 +45,9 @@ def make_mandatory(*names: str):
             hint = unoptional(field_parent_type(mcls, name))
             # update model and type hint (important for type analysis)
             mcls.__fields__[name].required = True
+            # the field copied from the parent still allows None (from its Optional):
+            # None is not serialized, so the result would lack the mandatory field
+            mcls.__fields__[name].allow_none = False
             mcls.__annotations__[name] = hint
 
         return mcls
